@@ -205,7 +205,7 @@ type track struct {
 }
 
 type scenario struct {
-	kind      string // replay | conflict | conc | start | startconc | rounds | burst | live
+	kind      string // replay | conflict | conc | start | startconc | rounds | burst | live | overlap
 	chans     []string
 	tracks    []*track
 	auth      string // none | default | channel
@@ -1302,6 +1302,7 @@ func Main(args []string) error {
 	nLive := fs.Int("lives", 3, "number of liveness scenarios (8..12 tracks of one channel, multi-chunk segments)")
 	liveLen := fs.Int("livelen", 4, "rounds per liveness scenario")
 	roundLen := fs.Int("roundlen", 12, "rounds per many-rounds scenario")
+	nOverlap := fs.Int("overlaps", 4, "number of overlap scenarios (two uploads of one track while it is registered from disk)")
 	from := fs.Int("from", 0, "index of the first scenario to run (the parent restarts a child that the Go runtime killed)")
 	repo := fs.String("repo", os.Getenv("VERIF_REPO"), "repository root")
 	root := fs.String("tmp", "", "directory for the receivers' storage")
@@ -1375,12 +1376,16 @@ func Main(args []string) error {
 	nSC := *nStartConc * *nSets
 	nConc := *nShapes * *reps
 	nB := *nBurst * 2 * *burstReps
-	total := len(gens) + nStart + nSC + nConc + *nRoundsSc + nB + *nLive
+	totalOld := len(gens) + nStart + nSC + nConc + *nRoundsSc + nB + *nLive
+	total := totalOld + *nOverlap
 	for idx := *from; idx < total; idx++ {
 		d.nScen = idx
 		c := idx
 		var err error
 		switch {
+		case c >= totalOld:
+			c -= totalOld
+			err = d.overlap(d.overlapScenario(*seed, c), c)
 		case c < len(gens):
 			err = d.replay(&gens[c], c+int(*seed))
 		case c < len(gens)+nStart:
